@@ -21,4 +21,19 @@ PROPS = {
                    "and monitors, not yet by one composed theorem",
         "assumptions": ["ledger trace contract E1-E3 (DESIGN §6/C01) and NoStale (E4) as hypotheses of the ledger theorem"],
     },
+    "C02": {
+        "modules": ["PgBifrost.Props.C02"],
+        "components": ["ledger"],
+        "partial": "proved under NoStale (finding F1 makes the full statement false); client error-recovery and the "
+                   "batcher's side of the contract are separate obligations",
+        "assumptions": ["ledger trace contract E1-E3 and NoStale (E4); every committed delivery completely written; "
+                        "every delivery without a seen was superseded by a later key of its transaction"],
+    },
+    "C08": {
+        "modules": ["PgBifrost.Props.C08"],
+        "components": ["filter", "clifilter"],
+        "required_theorems": ["PgBifrost.Props.C08.filter_iff", "PgBifrost.Props.C08.cli_filter_correct"],
+        "assumptions": ["regexp matching is Go's regexp (parameter of the model)", "at most one of the four options is given",
+                        "a TRUNCATE of several tables is filtered on the relation text as test_decoding prints it (the whole list)"],
+    },
 }
